@@ -3,7 +3,9 @@ package proto_test
 // C27 — every message/request/response type of proto.Serializer round-trips; arbitrary bytes never panic.
 
 import (
+	"encoding/hex"
 	"fmt"
+	"runtime/debug"
 	"sort"
 	"strings"
 	"testing"
@@ -79,10 +81,27 @@ func vc27Marshal(ser proto.Serializer, m pilosa.Message) (buf []byte, err error,
 	return
 }
 
+// vc27PanicInGenerated is set by vc27Unmarshal when the panic it recovered was raised inside the protobuf code generated
+// by gogo/protobuf 1.2.0 (internal/*.pb.go), not in the hand-written decode functions: the signature of finding DP14.
+var vc27PanicInGenerated bool
+
 func vc27Unmarshal(ser proto.Serializer, buf []byte, m pilosa.Message) (err error, pv interface{}) {
+	vc27PanicInGenerated = false
 	defer func() {
 		if r := recover(); r != nil {
 			pv = r
+			// the frames between the panic and this function: generated code only?
+			st := string(debug.Stack())
+			if i := strings.Index(st, "panic("); i >= 0 {
+				st = st[i:]
+			}
+			if j := strings.Index(st, "encoding/proto.Serializer.Unmarshal"); j >= 0 {
+				st = st[:j]
+			}
+			vc27PanicInGenerated = strings.Contains(st, "/internal/public.pb.go") || strings.Contains(st, "/internal/private.pb.go")
+			if strings.Contains(st, "encoding/proto/proto.go") {
+				vc27PanicInGenerated = false
+			}
 		}
 	}()
 	err = ser.Unmarshal(buf, m)
@@ -153,7 +172,13 @@ func vc27Mutate(t *rapid.T, valid []byte) []byte {
 	case 3: // huge varint / length in place of a byte
 		if len(b) > 0 {
 			pos := rapid.IntRange(0, len(b)-1).Draw(t, "pos")
-			b = append(b[:pos:pos], append([]byte{0xff, 0xff, 0xff, 0xff, 0xff, 0xff, 0xff, 0xff, 0xff, 0x01}, b[pos+1:]...)...)
+			huge := rapid.SampledFrom([][]byte{
+				{0xff, 0xff, 0xff, 0xff, 0xff, 0xff, 0xff, 0xff, 0xff, 0x01}, // 2^64-1
+				{0xff, 0xff, 0xff, 0xff, 0xff, 0xff, 0xff, 0xff, 0xff, 0x00}, // 2^63-1
+				{0xff, 0xff, 0xff, 0xff, 0xff, 0xff, 0xff, 0xff, 0x7f},       // 2^63-1, 9 bytes
+				{0xf0, 0xff, 0xff, 0xff, 0x07},                               // 2^31-16
+			}).Draw(t, "huge")
+			b = append(b[:pos:pos], append(append([]byte(nil), huge...), b[pos+1:]...)...)
 		}
 	case 4: // drop a prefix (re-synchronises on another field)
 		if len(b) > 0 {
@@ -208,6 +233,11 @@ func TestVerifC27_Bytes(t *testing.T) {
 		c.Class("target:" + target.name).Class("bytes:" + kind)
 		out := target.new()
 		err, pv := vc27Unmarshal(ser, data, out)
+		if pv != nil && vc27PanicInGenerated && vkit.Open("DP14") {
+			vkit.Excluded("DP14")
+			c.Class("DP14-panic-in-generated-code")
+			return
+		}
 		if pv != nil {
 			t.Fatalf("Unmarshal of %d bytes %x into *pilosa.%s panicked: %v", len(data), data, target.name, pv)
 		}
@@ -325,5 +355,15 @@ func TestVerifWitness_DP9(t *testing.T) {
 	}
 	if !out.Meta.NoStandardView {
 		t.Fatalf("FieldOptions.NoStandardView does not survive encoding: the peers create the field with a standard view")
+	}
+}
+
+// DP14 (open): the Unmarshal code generated by gogo/protobuf 1.2.0 (CVE-2021-3121) adds a length read from the
+// input to its index without an overflow check; a length near 2^63 makes the index negative and the decoder panics.
+func TestVerifWitness_DP14(t *testing.T) {
+	var ser proto.Serializer
+	data, _ := hex.DecodeString("830f828001ffffffffffffffffff000000")
+	if _, pv := vc27Unmarshal(ser, data, &pilosa.TranslateKeysResponse{}); pv != nil {
+		t.Fatalf("Unmarshal of %x into *pilosa.TranslateKeysResponse panics (in generated code: %v): %v", data, vc27PanicInGenerated, pv)
 	}
 }
